@@ -101,4 +101,30 @@ theorem otherSame_freeT (m : Mem) (t : Triple) : otherSame m (m.freeT t) t := by
 theorem otherSame_check (m : Mem) (b : Bool) (t : Triple) : otherSame m (m.check b) t := by
   cases b <;> cases t <;> simp [check, otherSame]
 
+
+/-- successful allocator calls of the current operation made through triple `t` -/
+def allocsT (m : Mem) : Triple → Nat
+  | .conf => m.nalloc
+  | .libc => m.lalloc
+
+theorem allocT_true_allocs (m : Mem) (t : Triple) (h : (m.allocT t).1 = true) :
+    (m.allocT t).2.allocsT t = m.allocsT t + 1 := by
+  cases t
+  · simp only [allocT_conf] at *; unfold alloc at *; split <;> simp_all [allocsT]
+  · simp [allocT, allocsT]
+
+theorem allocT_false_allocs (m : Mem) (t : Triple) (h : (m.allocT t).1 = false) :
+    (m.allocT t).2.allocsT t = m.allocsT t := by
+  cases t
+  · simp only [allocT_conf] at *; unfold alloc at *; split <;> simp_all [allocsT]
+  · simp [allocT] at h
+
+theorem freeT_allocs (m : Mem) (t : Triple) : (m.freeT t).allocsT t = m.allocsT t ∧ (m.freeT t).nrefused = m.nrefused := by
+  cases t
+  · simp only [freeT_conf, allocsT]; unfold free; split <;> simp
+  · simp only [freeT, allocsT]; split <;> simp
+
+theorem check_allocs (m : Mem) (b : Bool) (t : Triple) : (m.check b).allocsT t = m.allocsT t ∧ (m.check b).nrefused = m.nrefused := by
+  cases b <;> cases t <;> simp [check, allocsT]
+
 end CC.Mem
